@@ -24,6 +24,8 @@ pub mod um;
 pub mod um_model;
 pub mod um_oracle;
 pub mod um_suites;
+pub mod c23;
+pub mod c28;
 
 pub fn for_property(p: &str) -> Vec<Suite> {
     match p {
@@ -54,6 +56,8 @@ pub fn for_property(p: &str) -> Vec<Suite> {
         "C03" => um_suites::c03(),
         "C04" => um_suites::c04(),
         "C27" => um_suites::c27(),
+        "C23" => c23::suites(),
+        "C28" => c28::suites(),
         _ => vec![],
     }
 }
@@ -66,6 +70,7 @@ pub fn extract_all(dir: &Path) {
     c30::extract(dir);
     c18::extract(dir);
     c19::extract(dir);
+    c23::extract(dir);
 }
 
 #[allow(dead_code)]
